@@ -202,9 +202,17 @@ def find_writes(repo: Repo, fns: Dict[Tuple[str, str], Fn]) -> List[Write]:
                 elif d in ("exec", "eval"):
                     out.append(Write("exec-shared", "exec in the caller's own namespace", f, n))
                 elif d in PROCESS_SETTINGS:
-                    const = all(isinstance(a, ast.Constant) for a in n.args)
+                    const = all(isinstance(a, ast.Constant) or ratchet(a, d) for a in n.args)
                     out.append(Write("process-const" if const else "process", d, f, n, detail=ast.unparse(n)))
     return out
+
+
+def ratchet(a: ast.AST, setter: str) -> bool:
+    """``max(<getter of the same setting>(), constant, ...)``: a monotone ratchet; writing it twice writes the same value."""
+    if not (isinstance(a, ast.Call) and dotted(a.func) == "max" and a.args):
+        return False
+    getter = setter.replace(".set", ".get")
+    return all(isinstance(x, ast.Constant) or (isinstance(x, ast.Call) and dotted(x.func) == getter and not x.args) for x in a.args)
 
 
 def mutations_of(fn: ast.AST, name: str) -> List[ast.AST]:
